@@ -102,6 +102,7 @@ package pool
 //@ func (*bitmapSectorAllocator).FreeContiguous
 //@   props C15
 //@   requires firstSector >= 1 && count >= 1
+//@   loop 0 exhaustive
 //@   loop 0 invariant position: index * 64 + count == firstSector + old(count)
 //@   loop 0 invariant remaining: count >= 0
 //@   loop 0 invariant start: firstSector == old(firstSector) - 1
